@@ -585,6 +585,38 @@ func recordConc(rec *recorder, rng *rand.Rand, trials int, repo string) int {
 			close(stop)
 			wg.Wait()
 		}
+		if concMode == "hot" {
+			// Runs that START at the same instant: four goroutines released together by closing a channel, round after round
+			for round := 1; round <= 10*trials; round++ {
+				start := make(chan struct{})
+				var bw sync.WaitGroup
+				for gi := 1; gi <= 4; gi++ {
+					bw.Add(1)
+					go func(gi int) {
+						defer bw.Done()
+						k := (round + gi) % nKeys
+						feed := sm.stack(pool[k])
+						<-start
+						var out gonnx.Tensors
+						o := guard(func() Observation {
+							var err error
+							out, err = sm.model.Run(feed)
+							if err != nil {
+								return observeErr(err)
+							}
+							return Observation{Kind: "value"}
+						})
+						if o.Kind != "value" {
+							emit(map[string]interface{}{"ev": "Failed", "model": name, "why": o.Short(), "g": gi + 900, "seq": round, "key": k + 1, "digest": ""})
+							return
+						}
+						emit(map[string]interface{}{"ev": "RunEnd", "model": name, "g": gi + 900, "seq": round, "key": k + 1, "digest": digestOf(out, sm.outNames)})
+					}(gi)
+				}
+				close(start)
+				bw.Wait()
+			}
+		}
 	}
 	// random DAG programs over the operator catalogue (the same generator as the node-level trace recorder): every operator
 	// family is run from 8 goroutines at once, each Run with its own tensors, against the sequential result of the same input
